@@ -11,6 +11,7 @@ import numpy as np
 from pySDC.core.problem import Problem, WorkCounter
 from pySDC.core.hooks import Hooks
 from pySDC.implementations.datatype_classes.mesh import mesh, imex_mesh, comp2_mesh
+from pySDC.implementations.datatype_classes.particles import particles, acceleration
 
 
 def _arr(x, dtype):
@@ -184,6 +185,34 @@ class LinVec2Impl(Problem):
     def u_exact(self, t):
         me = self.dtype_u(self.init)
         me[:] = 1.0
+        return me
+
+
+class LinSecondOrder(Problem):
+    """x'' = -K x + g(t) with particles / acceleration data types (for the Verlet-type sweepers)."""
+
+    dtype_u = particles
+    dtype_f = acceleration
+
+    def __init__(self, K=None, g=None):
+        Km = _arr(K, float)
+        n = Km.shape[0]
+        super().__init__(init=(n, None, np.dtype('float64')))
+        self._makeAttributeAndRegister('K', 'g', localVars=locals(), readOnly=True)
+        self.Km, self.n = Km, n
+        self.forcing = _Forcing(g, n, np.dtype('float64'))
+        self.calls = []
+
+    def eval_f(self, u, t):
+        f = self.dtype_f(self.init)
+        f[:] = -self.Km @ np.asarray(u.pos) + self.forcing(t)
+        self.calls.append(('f', float(t), None))
+        return f
+
+    def u_exact(self, t):
+        me = self.dtype_u(self.init)
+        me.pos[:] = 1.0
+        me.vel[:] = 0.0
         return me
 
 
